@@ -332,14 +332,21 @@ def run(ctx):
     for fid in sorted(reach):
         fn = cg.funcs[fid]
         mod = cg.mod_of[fid]
-        texts = [anorm(n, fn)[:70] for n in walk_no_nested(fn) if isinstance(n, (ast.Raise, ast.Assert))]
+        def site_text(n):
+            # the key names what is raised / asserted, not the wording of the message
+            if isinstance(n, ast.Raise):
+                if n.exc is None:
+                    return 'raise'
+                return 'raise ' + ((call_name(n.exc) if isinstance(n.exc, ast.Call) else None) or norm(n.exc))
+            return 'assert ' + anorm(n.test, fn)[:70]
+        texts = [site_text(n) for n in walk_no_nested(fn) if isinstance(n, (ast.Raise, ast.Assert))]
         ordinal = {}
         for node in walk_no_nested(fn):
             if not isinstance(node, (ast.Raise, ast.Assert)):
                 continue
             n_r += 1
-            key = '%s.%s:%s' % (fid[0], fid[1], anorm(node, fn)[:70])
-            if texts.count(anorm(node, fn)[:70]) > 1:
+            key = '%s.%s:%s' % (fid[0], fid[1], site_text(node))
+            if texts.count(site_text(node)) > 1:
                 ordinal[key] = ordinal.get(key, 0) + 1
                 key += '#%d' % ordinal[key]
             reason = rtab.get(key)
